@@ -50,6 +50,52 @@ def summary(db, h, memo, depth=0):
                             out.setdefault(p, set()).update(kinds)
 
     from_expr(fn_expr_local(h, 0))
+    # a set that is built first and extended afterwards (`let mut reads = access(d); reads.extend(access_operand(s));`):
+    # what is added through a mutable borrow of the local that becomes a field of the returned value flows there too
+    field_locals = {}
+    for i, j, st in h.stmts():
+        if st["k"] == "assign" and st["rv"]["k"] == "agg" and st["rv"]["a"]["k"] == "adt" and st["rv"]["a"]["path"] == MA:
+            for kind, op in zip(st["rv"]["a"]["fields"], st["rv"]["ops"]):
+                pl = op.get("m") or op.get("c")
+                if pl and not pl["pr"] and kind in KINDS:
+                    l_ = pl["l"]
+                    for _ in range(4):  # the operand is usually a move of the named local
+                        field_locals.setdefault(l_, set()).add(kind)
+                        ds_ = h.defs().get(l_, [])
+                        src_ = ds_[0][3]["rv"]["o"] if len(ds_) == 1 and ds_[0][0] == "s" and ds_[0][3]["k"] == "assign" and ds_[0][3]["rv"]["k"] == "use" else None
+                        spl = (src_.get("m") or src_.get("c")) if src_ else None
+                        if not spl or spl["pr"]:
+                            break
+                        l_ = spl["l"]
+    if field_locals:
+        for bb, t, c in h.calls():
+            if not (c and c.get("name") in ("extend", "insert", "union", "append", "push") and len(t["args"]) >= 2):
+                continue
+            pl = t["args"][0].get("m") or t["args"][0].get("c")
+            base = None
+            hops = 0
+            while pl is not None and hops < 3:
+                if pl["l"] in field_locals and not [x for x in pl["pr"] if x != "*"]:
+                    base = pl["l"]
+                    break
+                ds = h.defs().get(pl["l"], [])
+                pl = ds[0][3]["rv"].get("p") if len(ds) == 1 and ds[0][0] == "s" and ds[0][3]["k"] == "assign" and ds[0][3]["rv"]["k"] == "ref" else None
+                hops += 1
+            if base is None:
+                continue
+            added = fn_expr_operand(h, t["args"][1])
+            leaves = set(param_leaves(added))
+            # through a local helper returning a set: map its parameters back to our arguments
+            if added[0] == "call":
+                hs = db.by_path.get(added[1], [])
+                if len(hs) == 1 and depth < 3:
+                    leaves = set()
+                    inner = param_leaves(fn_expr_local(hs[0], 0))
+                    for k in inner:
+                        if k - 1 < len(added[2]):
+                            leaves |= param_leaves(added[2][k - 1])
+            for p_ in leaves:
+                out.setdefault(p_, set()).update(field_locals[base])
     memo[h.dp] = out
     return out
 
